@@ -864,7 +864,8 @@ class Filter(base.Filter):
                 if attr in attrs:
                     attrs[attr] = re.sub(r'url\s*\(\s*[^#\s][^)]+?\)',
                                          ' ',
-                                         unescape(attrs[attr]))
+                                         unescape(attrs[attr]),
+                                         flags=re.I)
             if (token["name"] in self.svg_allow_local_href and
                 (namespaces['xlink'], 'href') in attrs and re.search(r'^\s*[^#\s].*',
                                                                      attrs[(namespaces['xlink'], 'href')])):
